@@ -321,6 +321,11 @@ def run(ctx, selftest=False):
     ctx.sample(traces[0]); ctx.sample(traces[-1]); ctx.sample([t for t in traces if t["kind"] == "data"][0])
     verdicts = ctx.validate("ValidationTrace", traces, timeout=3000)
     ctx.judge(traces, verdicts)
+    # what was validated at construction stays what it was (spec/History.tla, prior kind): the parameter names and the number of
+    # offsets a prior declares may not change because the caller goes on using the list of offset priors it passed in, nor
+    # because of the sampling calls made on the prior
+    from .. import history
+    history.check(ctx, "prior", {"C18"}, ("C18.", "H."), selftest=selftest, cap=16 if ctx.tier == "quick" else None)
     if selftest or not quick:
         import copy
         a = copy.deepcopy([t for t in traces if t["kind"] == "prior" and t["raised"]][0]); a["id"] = "st-1"; a["raised"] = False
